@@ -246,13 +246,17 @@ fn convert_hgignore_glob(glob: &str, file_path: &Path) -> Result<Regex, Error> {
 fn convert_hgignore_regexp(regexp: &str, file_path: &Path) -> Result<Regex, Error> {
     #[cfg(not(windows))]
     {
-        let mut pattern = file_path.to_string_lossy().to_string();
+        // the top of the repository, as text, at the start of the entry's canonical path
+        let mut pattern = String::from("^").add(&regex::escape(&file_path.to_string_lossy()));
         if !regexp.starts_with("^") {
             pattern = pattern.add("/([^/]+/)*");
         }
 
         if !regexp.starts_with("^") {
             pattern = pattern.add(".*");
+        } else {
+            // `^` is the top of the repository: the path goes on after the separator
+            pattern = pattern.add("/");
         }
 
         pattern = pattern.add(&regexp.trim_start_matches("^"));
